@@ -65,7 +65,7 @@ ENV_BLOCK = 60
 def _env_space(tier):
     """the sub-space run again under each environment: I(1) over the full alphabet (one return kind, one header) and I(2) over the collision alphabet"""
     full, small = _alphabets(tier)
-    yield from A.ir_space(full, small, 2, returns_1=A.RETURNS[1:2], returns_n=A.RETURNS[:1], headers=A.HEADERS[:1], alt_names=())
+    yield from A.ir_space(full, small, 2, returns_1=A.RETURNS[1:2], returns_n=A.RETURNS[:1], headers=A.HEADERS[:1], alt_names=(), wide=False)
 
 
 def _wrap_sweep_space(tier):
